@@ -1,4 +1,5 @@
 import GambitV.Lemmas.Cluster
+import GambitV.Lemmas.Upgma
 
 /-!
 # C17 — the tree built from a linkage matrix: leaves, branch lengths, ultrametricity
@@ -158,5 +159,314 @@ example : ValidLinkage 3 [⟨0, 1, 20⟩, ⟨3, 2, 10⟩] = false := by decide
 
 /-- without monotone heights the conversion does produce a negative branch -/
 example : (linkageToTree 3 [⟨0, 1, 20⟩, ⟨3, 2, 10⟩]).map Clade.nonneg = some false := by decide
+
+/-! ## The executable UPGMA model (`Model/Upgma.lean`) produces a valid linkage
+
+`upgma D n` agglomerates `n` observations by average linkage in exact arithmetic.  The theorems below
+say: it emits `n − 1` rows (U1) whose children are a permutation of `0 … 2n−3` (U2) with positive
+denominators (U3); the height of a row is exactly the average of `D` over the observations below its
+two children (U4); each step merges a pair of minimal average distance (U5); for a symmetric matrix the
+heights never decrease (U6); so for a symmetric non-negative matrix the common-denominator linkage
+`toLink (upgma D n)` satisfies `ValidLinkage` (U7) and all tree theorems above apply (U8).
+Helper lemmas and the loop invariant `UInv` live in `Lemmas/Upgma.lean`. -/
+
+/-- U1. `n − 1` rows. -/
+theorem upgma_length {D : List (List Int)} {n : Nat} (_hn : 1 ≤ n) : (upgma D n).length = n - 1 :=
+  upgma_length_eq D n
+
+/-- U2a. The children of row `t` exist already (`< n + t`) and are distinct. -/
+theorem upgma_children_lt {D : List (List Int)} {n t : Nat} {r : QRow} (h : (upgma D n)[t]? = some r) :
+    r.left < n + t ∧ r.right < n + t ∧ r.left ≠ r.right := by
+  by_cases hn : 1 ≤ n
+  · exact (uinv_final D hn).rows_ok t r h
+  · have : n = 0 := by omega
+    subst this
+    simp [upgma_zero] at h
+
+/-- U2. Every cluster except the last is merged exactly once. -/
+theorem upgma_children_perm {D : List (List Int)} {n : Nat} (hn : 1 ≤ n) :
+    (linkChildren (toLink (upgma D n))).Perm (List.range (n + (n - 1) - 1)) := by
+  have inv := uinv_final D hn
+  rw [linkChildren_toLink]
+  have hp := inv.perm
+  have hlast := inv.last
+  have hlen := inv.act_len
+  generalize (upgmaRun D (n - 1) (upgmaInit n)).act = act at hp hlast hlen
+  match act, hlen with
+  | [c], _ =>
+    simp only [List.getLast?_singleton, Option.map_some, Option.some.injEq] at hlast
+    simp only [List.map_cons, List.map_nil, hlast] at hp
+    rw [show n + (n - 1) = (n + (n - 1) - 1) + 1 by omega, List.range_succ] at hp
+    rw [show n + (n - 1) - 1 + 1 - 1 = n + (n - 1) - 1 by omega] at hp
+    exact (List.perm_append_right_iff _).1 hp
+  | [], h => simp at h; omega
+  | _ :: _ :: _, h => simp at h; omega
+
+/-- U3. Denominators are positive. -/
+theorem upgma_den_pos {D : List (List Int)} {n : Nat} : ∀ r ∈ upgma D n, 0 < r.den := by
+  intro r hr
+  by_cases hn : 1 ≤ n
+  · obtain ⟨t, ht⟩ := List.getElem?_of_mem hr
+    exact ((uinv_final D hn).rows_avg t r ht).1
+  · have : n = 0 := by omega
+    subst this
+    simp [upgma_zero] at hr
+
+/-- U4 (general fuel). The height `num / den` of row `t` is exactly the average of `D` over
+(observations below the left child) × (observations below the right child), for any fuels `f1`, `f2`
+with `1 ≤ f` and `child + 2 ≤ f + n` (`FuelOk`); both observation lists are non-empty. -/
+theorem upgma_height_is_average_fuel {D : List (List Int)} {n t : Nat} {r : QRow} (hn : 1 ≤ n)
+    (h : (upgma D n)[t]? = some r) (f1 f2 : Nat) (h1 : FuelOk n f1 r.left) (h2 : FuelOk n f2 r.right) :
+    rowLeaves n (upgma D n) f1 r.left ≠ [] ∧ rowLeaves n (upgma D n) f2 r.right ≠ [] ∧
+    r.num = sumD D (rowLeaves n (upgma D n) f1 r.left) (rowLeaves n (upgma D n) f2 r.right) ∧
+    r.den = (rowLeaves n (upgma D n) f1 r.left).length * (rowLeaves n (upgma D n) f2 r.right).length :=
+  ((uinv_final D hn).rows_avg t r h).2 f1 f2 h1 h2
+
+/-- U4. The same with the fuel `n + t` (which is sufficient: the children of row `t` are `< n + t`). -/
+theorem upgma_height_is_average {D : List (List Int)} {n t : Nat} {r : QRow} (hn : 1 ≤ n)
+    (h : (upgma D n)[t]? = some r) :
+    r.num = sumD D (rowLeaves n (upgma D n) (n + t) r.left) (rowLeaves n (upgma D n) (n + t) r.right) ∧
+    r.den = (rowLeaves n (upgma D n) (n + t) r.left).length * (rowLeaves n (upgma D n) (n + t) r.right).length := by
+  obtain ⟨hl, hr, _⟩ := upgma_children_lt h
+  exact (upgma_height_is_average_fuel hn h (n + t) (n + t) ⟨by omega, by omega⟩ ⟨by omega, by omega⟩).2.2
+
+/-- U4b. The observations below the last cluster (number `2n − 2`) are a permutation of `0 … n−1`
+(for any fuel `f ≥ n`; `n = (upgma D n).length + 1`). -/
+theorem upgma_leaves_partition {D : List (List Int)} {n : Nat} (hn : 1 ≤ n) (f : Nat) (hf : n ≤ f) :
+    (rowLeaves n (upgma D n) f (n + (n - 1) - 1)).Perm (List.range n) := by
+  have inv := uinv_final D hn
+  have hleaves := inv.leaves
+  have hlast := inv.last
+  have hlen := inv.act_len
+  have hal := inv.act_leaves
+  show (rowLeaves n (upgmaRun D (n - 1) (upgmaInit n)).rows f (n + (n - 1) - 1)).Perm _
+  generalize (upgmaRun D (n - 1) (upgmaInit n)).rows = rows at hal
+  generalize (upgmaRun D (n - 1) (upgmaInit n)).act = act at hleaves hlast hlen hal
+  match act, hlen with
+  | [c], _ =>
+    simp only [List.getLast?_singleton, Option.map_some, Option.some.injEq] at hlast
+    have := hal c (List.mem_singleton.2 rfl) f ⟨by omega, by omega⟩
+    rw [hlast] at this
+    rw [this]
+    simpa using hleaves
+  | [], h => simp at h; omega
+  | _ :: _ :: _, h => simp at h; omega
+
+/-- U5. Every step merges a pair of minimal average distance among all active clusters. -/
+theorem upgma_step_minimal {D : List (List Int)} {n k : Nat} (hk : k < n - 1) :
+    ∃ i j, argminPair D (upgmaRun D k (upgmaInit n)).act = some (i, j) ∧ i < j ∧
+      j < (upgmaRun D k (upgmaInit n)).act.length ∧
+      ∀ p q, p < q → q < (upgmaRun D k (upgmaInit n)).act.length →
+        avgLt D (memAt (upgmaRun D k (upgmaInit n)).act p) (memAt (upgmaRun D k (upgmaInit n)).act q)
+          (memAt (upgmaRun D k (upgmaInit n)).act i) (memAt (upgmaRun D k (upgmaInit n)).act j) = false := by
+  obtain ⟨i, j, h1, h2, h3, h4, _, _⟩ := (uinv_run D n k (by omega)).step_spec (by omega)
+  exact ⟨i, j, h1, h2, h3, h4⟩
+
+/-- U5b. …and the row emitted by that step is the row `k` of the result: children = the numbers of the two
+clusters, height = their average distance. -/
+theorem upgma_step_row {D : List (List Int)} {n k : Nat} (hk : k < n - 1) :
+    ∃ i j, argminPair D (upgmaRun D k (upgmaInit n)).act = some (i, j) ∧
+      (upgma D n)[k]? = some (mergeRow D (upgmaRun D k (upgmaInit n)).act i j) := by
+  have inv := uinv_run D n k (by omega)
+  obtain ⟨i, j, h1, _, _, _, h5, _⟩ := inv.step_spec (by omega)
+  refine ⟨i, j, h1, ?_⟩
+  rw [upgma_getElem?_run D (show k < k + 1 by omega) (show k + 1 < n by omega), upgmaRun_succ, h5]
+  show ((upgmaRun D k (upgmaInit n)).rows ++ [mergeRow D (upgmaRun D k (upgmaInit n)).act i j])[k]? = _
+  have hl := inv.rows_len
+  generalize (upgmaRun D k (upgmaInit n)).rows = R at hl
+  rw [← hl]
+  exact List.getElem?_concat_length
+
+/-- U6. For a symmetric matrix the heights never decrease (reducibility of average linkage). -/
+theorem upgma_monotone {D : List (List Int)} {n t : Nat} {r1 r2 : QRow} (hs : SymmD D)
+    (h1 : (upgma D n)[t]? = some r1) (h2 : (upgma D n)[t + 1]? = some r2) :
+    r1.num * (r2.den : Int) ≤ r2.num * (r1.den : Int) := by
+  have hlt : t + 1 < (upgma D n).length := (List.getElem?_eq_some_iff.1 h2).1
+  rw [upgma_length_eq] at hlt
+  have hk : t + 2 < n := by omega
+  have inv := uinv_run D n t (by omega)
+  obtain ⟨a, b, hrows, hle⟩ := monotone_step hs inv hk
+  rw [← upgmaRun_succ, ← upgmaRun_succ] at hrows
+  rw [upgma_getElem?_run D (show t < t + 1 + 1 by omega) hk, hrows] at h1
+  rw [upgma_getElem?_run D (show t + 1 < t + 1 + 1 by omega) hk, hrows] at h2
+  have hl := inv.rows_len
+  rw [List.getElem?_append_right (by omega)] at h1 h2
+  rw [hl] at h1 h2
+  rw [show t - t = 0 by omega] at h1
+  rw [show t + 1 - t = 1 by omega] at h2
+  simp only [List.getElem?_cons_zero, List.getElem?_cons_succ, Option.some.injEq] at h1 h2
+  subst h1 h2
+  exact hle
+
+/-- U6b. The same for any two rows `t ≤ t'`. -/
+theorem upgma_monotone_all {D : List (List Int)} {n t t' : Nat} {r1 r2 : QRow} (hs : SymmD D) (htt : t ≤ t')
+    (h1 : (upgma D n)[t]? = some r1) (h2 : (upgma D n)[t']? = some r2) :
+    r1.num * (r2.den : Int) ≤ r2.num * (r1.den : Int) := by
+  induction t' generalizing r2 with
+  | zero =>
+    have : t = 0 := by omega
+    subst this
+    rw [h1] at h2
+    cases h2
+    exact Int.le_refl _
+  | succ m ih =>
+    by_cases htm : t = m + 1
+    · subst htm
+      rw [h1] at h2
+      cases h2
+      exact Int.le_refl _
+    · have hlt : m + 1 < (upgma D n).length := (List.getElem?_eq_some_iff.1 h2).1
+      have hm : m < (upgma D n).length := by omega
+      have hmid : (upgma D n)[m]? = some (upgma D n)[m] := List.getElem?_eq_getElem hm
+      have h3 := ih (by omega) hmid
+      have h4 := upgma_monotone hs hmid h2
+      have p1 : (0 : Int) < r1.den := by
+        have := upgma_den_pos r1 (List.mem_of_getElem? h1); omega
+      have p2 : (0 : Int) < (upgma D n)[m].den := by
+        have := upgma_den_pos _ (List.getElem_mem hm); omega
+      have p3 : (0 : Int) < r2.den := by
+        have := upgma_den_pos r2 (List.mem_of_getElem? h2); omega
+      exact frac_le_trans p1 p2 p3 h3 h4
+
+/-- U7. For a symmetric matrix without negative entries, the linkage (heights brought to the common
+denominator `commonDen`) is well-formed in the sense of `ValidLinkage`. -/
+theorem upgma_valid {D : List (List Int)} {n : Nat} (hs : SymmD D) (hp : NonnegD D) (hn : 1 ≤ n) :
+    ValidLinkage n (toLink (upgma D n)) = true := by
+  have hlen : (toLink (upgma D n)).length = n - 1 := by
+    unfold toLink
+    rw [List.length_map, upgma_length_eq]
+  -- the height of the link row made from `r`
+  have hnum : ∀ (t : Nat) (r : QRow), (upgma D n)[t]? = some r → 0 ≤ r.num := by
+    intro t r h
+    rw [(upgma_height_is_average hn h).1]
+    exact sumD_nonneg hp _ _
+  have hrow : ∀ t row, (toLink (upgma D n))[t]? = some row →
+      RowOk n (toLink (upgma D n)) (n + t) row := by
+    intro t row h
+    rw [toLink_getElem?] at h
+    cases hr : (upgma D n)[t]? with
+    | none => rw [hr] at h; simp at h
+    | some r =>
+      rw [hr] at h
+      simp only [Option.map_some, Option.some.injEq] at h
+      subst h
+      obtain ⟨hl, hrt, hne⟩ := upgma_children_lt hr
+      have hnn : (0 : Int) ≤ r.num * ((commonDen (upgma D n) / r.den : Nat) : Int) :=
+        Int.mul_nonneg (hnum t r hr) (Int.natCast_nonneg _)
+      -- height of a child `c < n + t`
+      have hchild : ∀ c, c < n + t →
+          nodeHeight n (toLink (upgma D n)) c ≤ r.num * ((commonDen (upgma D n) / r.den : Nat) : Int) := by
+        intro c hc
+        by_cases hcn : c < n
+        · rw [nodeHeight_lt _ hcn]; exact hnn
+        · rw [nodeHeight_ge _ (by omega)]
+          have hlt : t < (upgma D n).length := (List.getElem?_eq_some_iff.1 hr).1
+          have hc' : c - n < (upgma D n).length := by omega
+          have hr' : (upgma D n)[c - n]? = some (upgma D n)[c - n] := List.getElem?_eq_getElem hc'
+          rw [List.getD_eq_getElem?_getD, toLink_getElem?, hr']
+          simp only [Option.map_some, Option.getD_some]
+          have hmono := upgma_monotone_all hs (show c - n ≤ t by omega) hr' hr
+          have d1 := upgma_den_pos _ (List.getElem_mem hc')
+          have d2 := upgma_den_pos r (List.mem_of_getElem? hr)
+          have v1 := Nat.mul_div_cancel' (den_dvd_commonDen (List.getElem_mem hc'))
+          have v2 := Nat.mul_div_cancel' (den_dvd_commonDen (List.mem_of_getElem? hr))
+          refine scale_le (L := ((commonDen (upgma D n) : Nat) : Int)) (b := ((upgma D n)[c - n].den : Int))
+            (d := (r.den : Int)) (by omega) (by omega) (Int.natCast_nonneg _) ?_ ?_ hmono
+          · rw [← Int.natCast_mul, v1]
+          · rw [← Int.natCast_mul, v2]
+      exact ⟨hl, hrt, hne, hnn, hchild _ hl, hchild _ hrt⟩
+  unfold ValidLinkage
+  simp only [Bool.and_eq_true, decide_eq_true_eq]
+  refine ⟨⟨⟨hn, hlen⟩, rowsOk_of_spec n _ n _ hrow⟩, ?_⟩
+  rw [List.isPerm_iff, hlen]
+  exact upgma_children_perm hn
+
+/-- U8. Hence the tree built from the UPGMA linkage exists, has exactly the labels `0 … n−1` as leaves,
+no negative branch, and all leaves are equidistant from the root (at the height of the last row). -/
+theorem upgma_tree_ok {D : List (List Int)} {n : Nat} (hs : SymmD D) (hp : NonnegD D) (hn : 1 ≤ n) :
+    ∃ t, linkageToTree n (toLink (upgma D n)) = some t ∧ t.leaves.Perm (List.range n) ∧ t.nonneg = true ∧
+      t.FromLink n (toLink (upgma D n)) (n + (toLink (upgma D n)).length - 1) ∧
+      t.Ultra (((toLink (upgma D n)).getLast?.map (·.height)).getD 0) ∧
+      ∀ p ∈ t.depths, p.2 = ((toLink (upgma D n)).getLast?.map (·.height)).getD 0 := by
+  have hv := upgma_valid hs hp hn
+  obtain ⟨t, ht, hf⟩ := tree_from_linkage hv
+  obtain ⟨t', ht', hu⟩ := tree_ultra hv
+  rw [ht] at ht'
+  cases ht'
+  exact ⟨t, ht, leaves_perm' hv t ht, branch_nonneg' hv t ht, hf, hu, ultrametric' hv t ht⟩
+
+/-- U9. A replayed merge (somebody else's choice, e.g. SciPy's) that `replayStep` accepts is a merge of two
+distinct active clusters of minimal average distance. -/
+theorem replay_minimal {D : List (List Int)} {s s' : UState} {l r : Nat} (h : replayStep D s l r = some s') :
+    ∃ i j, findPos s.act l = some i ∧ findPos s.act r = some j ∧ i ≠ j ∧
+      ∀ p q, p < q → q < s.act.length →
+        avgLt D (memAt s.act p) (memAt s.act q) (memAt s.act i) (memAt s.act j) = false := by
+  obtain ⟨i, j, hi, hj, hne, hmin, _⟩ := replayStep_eq_some h
+  exact ⟨i, j, hi, hj, hne, fun p q hpq hq => hmin (p, q) (mem_idxPairs.2 ⟨hpq, hq⟩)⟩
+
+/-- U9b. …and the state it produces: the row names the two clusters, its height is their average distance. -/
+theorem replay_row {D : List (List Int)} {s s' : UState} {l r : Nat} (h : replayStep D s l r = some s') :
+    ∃ i j, findPos s.act l = some i ∧ findPos s.act r = some j ∧
+      s'.rows = s.rows ++ [⟨l, r, sumD D (memAt s.act i) (memAt s.act j),
+        (memAt s.act i).length * (memAt s.act j).length⟩] ∧ s'.next = s.next + 1 := by
+  obtain ⟨i, j, hi, hj, _, _, rfl⟩ := replayStep_eq_some h
+  exact ⟨i, j, hi, hj, rfl, rfl⟩
+
+/-- U9c (stretch 2). If the model meets no tie on `D` (`upgmaTieFree`), then every merge sequence that
+`replayRun` accepts — each merge a minimal pair, e.g. SciPy's — yields the model's rows, up to the order
+in which a row names its two children.  `SymmD D` is needed (and therefore added as a hypothesis): the
+replay may name the pair in the other order and then reads `sumD D B A` instead of `sumD D A B`; see the
+counterexample `Dasym2` below. -/
+theorem replay_eq_of_tieFree {D : List (List Int)} {n : Nat} {ms : List (Nat × Nat)} {s : UState}
+    (hs : SymmD D) (htf : upgmaTieFree D n = true) (hn : 1 ≤ n) (hlen : ms.length = n - 1)
+    (h : replayRun D ms (upgmaInit n) = some s) :
+    s.rows.map (fun m => (min m.left m.right, max m.left m.right, m.num, m.den)) =
+      (upgma D n).map (fun m => (min m.left m.right, max m.left m.right, m.num, m.den)) := by
+  have rel := replay_run_rel hs ms 0 (upgmaInit n) (upgmaInit n) s (uinv_init D n hn) (RelS.refl _)
+    (by omega) (by rw [hlen]; exact htf) h
+  rw [hlen] at rel
+  exact rel.rows
+
+/-! ### Non-vacuity of the UPGMA theorems -/
+
+def D4 : List (List Int) := [[0, 2, 6, 10], [2, 0, 5, 9], [6, 5, 0, 4], [10, 9, 4, 0]]
+
+example : upgma D4 4 = [⟨0, 1, 2, 1⟩, ⟨2, 3, 4, 1⟩, ⟨4, 5, 30, 4⟩] := by decide
+example : ValidLinkage 4 (toLink (upgma D4 4)) = true := by decide
+example : upgmaTieFree D4 4 = true := by decide
+
+theorem D4_symm : SymmD D4 := symmD_of_check (m := 4) (by decide)
+theorem D4_nonneg : NonnegD D4 := nonnegD_of_check (m := 4) (by decide)
+
+/-- the hypotheses of U7/U8 are satisfiable: the general theorem applies to `D4` -/
+example : ValidLinkage 4 (toLink (upgma D4 4)) = true := upgma_valid D4_symm D4_nonneg (by decide)
+
+example : linkageToTree 4 (toLink (upgma D4 4)) =
+    some (.node (.node (.leaf 0 8) (.leaf 1 8) 22) (.node (.leaf 2 16) (.leaf 3 16) 14) 0) := by decide
+
+/-- a replay of the same merges in the other order of naming is accepted, a non-minimal merge is not -/
+example : (replayRun D4 [(1, 0), (3, 2), (5, 4)] (upgmaInit 4)).isSome = true := by decide
+example : (replayRun D4 [(2, 3)] (upgmaInit 4)).isSome = false := by decide
+
+/-- `SymmD` is needed for U6: an asymmetric matrix whose second merge is lower than its first
+(the first step reads `D[0][1] = 5`, the second reads `D[2][0] + D[2][1] = 0`). -/
+def Dasym : List (List Int) := [[0, 5, 10], [0, 0, 10], [0, 0, 0]]
+
+example : upgma Dasym 3 = [⟨0, 1, 5, 1⟩, ⟨2, 3, 0, 2⟩] := by decide
+example : ¬ ((5 : Int) * ((2 : Nat) : Int) ≤ 0 * ((1 : Nat) : Int)) := by decide
+example : ¬ SymmD Dasym := fun h => absurd (h 0 1) (by decide)
+example : ValidLinkage 3 (toLink (upgma Dasym 3)) = false := by decide
+
+/-- `SymmD` is needed for `replay_eq_of_tieFree`: on this asymmetric tie-free matrix the replay that names
+the only pair as `(1, 0)` is accepted but reads the height `D[1][0] = 1`, the model reads `D[0][1] = 5`. -/
+def Dasym2 : List (List Int) := [[0, 5], [1, 0]]
+
+example : upgmaTieFree Dasym2 2 = true ∧ upgma Dasym2 2 = [⟨0, 1, 5, 1⟩] ∧
+    (replayRun Dasym2 [(1, 0)] (upgmaInit 2)).map (·.rows) = some [⟨1, 0, 1, 1⟩] := by decide
+
+/-- the replay theorem applies to `D4`: the replay naming every pair in the other order gives the model's rows -/
+example : ((replayRun D4 [(1, 0), (3, 2), (5, 4)] (upgmaInit 4)).map
+    (fun s => s.rows.map (fun m => (min m.left m.right, max m.left m.right, m.num, m.den)))) =
+    some ((upgma D4 4).map (fun m => (min m.left m.right, max m.left m.right, m.num, m.den))) := by decide
 
 end GambitV.C17
